@@ -562,6 +562,10 @@ class StickyAssignmentExecutor:
 
                 if (
                     partition in self.previous_assignment
+                    # a stale claim of a member that does not (any more)
+                    # subscribe to the topic must not get the partition back
+                    and self.previous_assignment[partition].consumer
+                    in self.partition_to_all_potential_consumers[partition]
                     and len(self.current_assignment[consumer])
                     > len(
                         self.current_assignment[
